@@ -516,7 +516,11 @@ def intersection(*args, **kwargs):
             fibers = args
 
             def __iter__(self):
-                start_pos = [None] * (len(self.fibers) - 1)
+                # Start every follower at its beginning: without a shortcut
+                # the first lookup would not refresh the follower's saved
+                # position, and a stale one (e.g. left by an earlier populate)
+                # would then be used as the shortcut for the second lookup
+                start_pos = [0] * (len(self.fibers) - 1)
 
                 is_collecting = Metrics.isCollecting()
                 leader_traced = False
